@@ -224,8 +224,13 @@ NOT_APPLICABLE = {
 
 # clauses added after the first claim texts were written (see DESIGN.md §4 for the exact statements)
 EXTRA = {
+    "C01": "Also decided: the two lowering iterations that are only correct back to front (elif fold, scope lookup) are "
+           "reversed (FOLDORDER).",
+    "C17": "HOOKSELECT reads what the filters in front of the candidates' collect() consume (receiver, name, params, "
+           "return_type); REWRITE follows the decision into a same-file helper.",
     "C03": "Also decided: a parser function that lexes a substring again receives a base offset or its result is rebased "
-           "(SUBSPAN); types_compatible never equates distinct nominal/generic heads (NOMINAL, decision table); checker "
+           "(SUBSPAN); the type tested by ensure_bool_condition, the span it blames and the compatibility flag belong to "
+           "one expression (COHERENT); types_compatible never equates distinct nominal/generic heads (NOMINAL, decision table); checker "
            "context set on entry to a nested body is restored on exit (CTXSCOPE); two run-time names are related only by "
            "equality or hash lookup, never by prefix/suffix/substring (NAMEEQ).",
     "C05": "Index and slice normalisation are now decided semantically for ALL indices: relational abstract "
@@ -238,7 +243,8 @@ EXTRA = {
            "finding. The syntactic sibling comparison of the two slice kernels is no longer armed.",
     "C06": "Also decided: both operands of a binary const expression are evaluated on every path (OPERANDS); the const "
            "evaluator never folds //, %, /, ** with Rust's native operators (RAWARITH, with a detector self-check on "
-           "the incan_core kernels).",
+           "the incan_core kernels); the table resolve_static_str_const reads is complete before the first resolution "
+           "(TWOPASS).",
     "C07": "Also decided: no path in the compound-assignment arm avoids the policy call except over a not-numeric edge "
            "(NOBYPASS); only the three syntactic classifiers call PowExponentKind::from_literal_info (EXPKIND).",
     "C08": "Also decided: the formatter lexes exactly the text it was given (SRCTEXT); a library byte escaper used by the "
@@ -247,9 +253,10 @@ EXTRA = {
     "C13": "Also decided: the escaped spelling never reaches a map/set lookup or a name comparison (ESCKEY).",
     "C14": "Also decided: check_with_imports records the export list of every dependency, also an empty one (REGALL).",
     "C15": "Also decided: feature flags are read only after every scan_for_* has run (SCANORDER); a crate is recorded as "
-           "already declared only on paths that pushed its dependency line.",
+           "already declared exactly on the paths that pushed its dependency line (both directions).",
     "C16": "Also decided: -x examines the reported result, after the xfail inversion (STOP); harness files are rewritten "
-           "from the current source before every cargo run.",
+           "from the current source before every cargo run; EXIT is decided by propagating each truth assignment of "
+           "`failed > 0` / `xpassed > 0` to the final returns.",
     "C18": "Also decided: the analysed state is stored before diagnostics are published (STOREFIRST); only "
            "analyze_document and did_close write `documents` and no handler skips the analysis of a change "
            "(WHOMAYWRITE); did_close removes the entry before polling any future other than the lock's.",
